@@ -4,7 +4,7 @@
             —(Lex/NumProofs, Syn/NameProofs, Lex/StrProofs: every ISO way of writing a number, name, string)→ items
             —(Syn/ParserProofs: the object grammar incl. the `n g R` look-ahead)→ values. *)
 From PdfV Require Import Base.Prelude Gen.Generated Lex.Lexer Lex.StrLexer Lex.LexProofs Lex.NumProofs Lex.StrProofs
-  Syn.Prim Syn.Utf8 Syn.Parser Syn.Spells Syn.ParserProofs Syn.NameProofs Syn.RenderProofs.
+  Syn.Prim Syn.Utf8 Syn.Parser Syn.Spells Syn.ParserProofs Syn.NameProofs Syn.RenderProofs Syn.StreamProofs.
 
 (** the full statement (names of arbitrary bytes): refuted by C03_name_not_utf8_refuted below — finding C03-h *)
 Definition C03_full_statement : Prop :=
@@ -100,6 +100,32 @@ Theorem C03_indirect : forall v its a b id gen, spells v its ->
     exists s1, parse_indirect_object R allow F_ANY s = Ok (id, gen, v, s1) /\ Lexes s1 k s_end.
 Proof. exact parse_indirect_spelled. Qed.
 Print Assumptions C03_indirect.
+
+(** streams: the dictionary, the keyword `stream`, LF or CR LF, exactly /Length bytes of data, `endstream` *)
+Theorem C03_stream : forall d body, spells_dict d body -> NoDup (keys d) ->
+  forall fuel R id gen depth s s2 s3 s4 eol data rest,
+    (length body + 2 <= fuel)%nat -> 1 + ddepth d <= depth ->
+    Lexes s (IWord kw_dict_open :: body ++ [IWord kw_dict_close]) s2 ->
+    next s2 = Ok (kw_stream, s3) -> stream_eol eol -> lrest s3 = eol ++ data ++ rest ->
+    dict_get key_Length d = Some (PInt (Z.of_N (lenN data))) ->
+    next_expect (mkLx (lpos s3 + lenN eol + lenN data) rest) kw_endstream = Ok s4 ->
+    parse_fuel fuel R (Some (id, gen)) F_ANY depth s = Ok (PStream d id gen (lpos s3 + lenN eol) (lenN data), s4).
+Proof. exact parse_stream_spelled. Qed.
+Print Assumptions C03_stream.
+
+Theorem C03_indirect_stream : forall d body a b id gen,
+  spells_dict d body -> NoDup (keys d) -> parse_u64 a = Ok id -> parse_u64 b = Ok gen ->
+  forall R allow s s2 s3 s4 s5 eol data rest,
+    1 + ddepth d <= MAX_DEPTH ->
+    Lexes s (IWord a :: IWord b :: IWord kw_obj :: IWord kw_dict_open :: body ++ [IWord kw_dict_close]) s2 ->
+    (forall s0, Lexes s0 (IWord kw_dict_open :: body ++ [IWord kw_dict_close]) s2 -> (length body + 2 <= fuel_for s0)%nat) ->
+    next s2 = Ok (kw_stream, s3) -> stream_eol eol -> lrest s3 = eol ++ data ++ rest ->
+    dict_get key_Length d = Some (PInt (Z.of_N (lenN data))) ->
+    next_expect (mkLx (lpos s3 + lenN eol + lenN data) rest) kw_endstream = Ok s4 ->
+    next_expect s4 kw_endobj = Ok s5 ->
+    parse_indirect_object R allow F_ANY s = Ok (id, gen, PStream d id gen (lpos s3 + lenN eol) (lenN data), s5).
+Proof. exact parse_indirect_stream_spelled. Qed.
+Print Assumptions C03_indirect_stream.
 
 (** MAX_DEPTH as generated from the source supports the nesting the property asks for *)
 Theorem C03_depth_supported : 20 <= MAX_DEPTH.
